@@ -400,7 +400,7 @@ def _govmon(tr, cid):
 register('C11', corr=trace_corr('gov', 'govcases', (48, 900), lambda op, code: (op['op'] in ('execute', 'execProposal', 'callback') and code & 9) or (op['op'] == 'deliver' and code & 25), GOV_RULE, gov_nontrivial, monitor=_govmon),
          assumptions=['callbacks run to completion (gas metering is not modelled)', 'now + minimum delay below 2^64 (u64 addition)',
                       'the external target contract is abstracted to an outcome (success with return data / failure)'])
-register('C12', corr=trace_corr('gov', 'govcases', (48, 900), lambda op, code: (op['op'] in ('execute', 'execOperator', 'transferOp', 'withdraw', 'callback', 'gwApprove') and code & 25) or (op['op'] == 'withdrawRefund' and code & 17), GOV_RULE, gov_nontrivial, monitor=_govmon),
+register('C12', corr=trace_corr('gov', 'govcases', (48, 900), lambda op, code: (op['op'] in ('execute', 'execOperator', 'transferOp', 'withdraw', 'callback', 'gwApprove', 'gwValidate') and code & 27) or (op['op'] == 'withdrawRefund' and code & 17), GOV_RULE, gov_nontrivial, monitor=_govmon),
          assumptions=['callbacks run to completion (gas metering is not modelled)', 'collision freedom of keccak only where C02 states it'])
 register('C16', corr=trace_corr('gov', 'govcases', (48, 900), lambda op, code: op['op'] in ('callback', 'withdrawRefund', 'execProposal', 'execOperator') and code & 25, GOV_RULE, gov_nontrivial, monitor=_govmon),
          assumptions=['whether the contract still holds the credited funds when a proposal has meanwhile moved them is outside the property'])
